@@ -350,7 +350,7 @@ func c07ErrClass(err error) string {
 
 func runC07(c *vx.Ctx) {
 	core.VScaleParams(core.VR1)
-	c.Rule = "all arrival sequences of <=L distinct menu transactions x chain prefixes; for each assembled block every applicable single-component mutation (13 declared-result fields, 11 body edits x {stale roots, recomputed roots}); outcome class = mutation kind x rejection reason"
+	c.Rule = "all arrival sequences of <=L distinct menu transactions x chain prefixes; for each assembled block every applicable single-component mutation (13 declared-result fields, 11 body edits x {stale roots, recomputed roots}); outcome class = mutation kind x rejection reason; etx-backlog: runs of k zone blocks made prime-coincident at once, k around both inbound-ETX floors; map-order: prefix + mempool + assembly under 12 fixed map-iteration draws"
 	c.Assume("scaled protocol constants: " + fmt.Sprint(core.VScaled))
 	c.Assume("records keyed by the rejected block's own hash (candidate header/body blob written before validation, termini, pending-ETX blob) are not chain state")
 	c.Assume("injected consensus engine: pow hash = MixHash chosen by the harness; seals are re-made after every mutation")
